@@ -114,6 +114,12 @@ func (o *infoObj) invoke(e *Exec, method string, args []value) value {
 		return Bool{C: o.dir}
 	case "Size":
 		return mkI64(int64(o.size))
+	case "Mode", "Type":
+		// a directory or a regular file
+		if o.dir {
+			return Int{W: 32, C: 1<<31 | 0o755}
+		}
+		return Int{W: 32, C: 0o644}
 	case "ModTime":
 		// one second per change of any file's contents, from a fixed origin
 		return TimeV{Sec: mkI64(1_600_000_000 + int64(o.mtime)), Nsec: mkI64(0)}
